@@ -86,7 +86,8 @@ CLAIMED = {
          "diagnostics only); no add() after the mixer ended; finite data; keep fixed at construction; non-dyadic deltas only "
          "in M3. Trusted: TLC, LinForm.",
          "DESIGN.md section 4 C16"),
- "C17": ("spec/io/AudioIO.tla (PlusCal) + trace/AudioIOTrace.tla + harness/sched.py",
+ "C17": ("spec/io/AudioIO.tla (PlusCal) refining spec/io/AudioObs.tla + trace/AudioObsTrace.tla + "
+         "trace/AudioIOTrace.tla + harness/sched.py",
          "TLC model checking of a PlusCal model of AudioIO/AudioThread over all interleavings (safety invariants + "
          "liveness of close under weak fairness) + deterministic scheduler that forces the real lazy_io (unmodified, "
          "over shim threading and a fake PyAudio backend) along TLC-generated behaviours + TLC trace validation of "
@@ -98,7 +99,11 @@ CLAIMED = {
          "coarse relation (pre-emption at synchronisation/backend operations) is turned into an edge cover of "
          "maximal behaviours that the real code is driven along, thread by thread, with the shared state compared "
          "after every operation; random and PCT schedules with random control histories for 1-3 players are logged "
-         "and validated by TLC, and direct monitors check the bytes received per device stream.",
+         "and validated by TLC, and direct monitors check the bytes received per device stream. The verdict on every "
+         "execution is property-level: its observable events (backend calls, thread start/end, the caller's "
+         "stop/close/play) are judged by the specification AudioObs, which the PlusCal model is shown to refine "
+         "(PROPERTY ObsRefined); an execution the implementation-shaped model cannot explain but AudioObs accepts is "
+         "reported as MODEL-DRIFT, not as a violation.",
          "Pre-emption only at lock/event/thread/backend operations (the deterministic scheduler is the OS); default "
          "float sample format; with wait=True close is not called while a player is paused and never resumed; "
          "bounds: 2 players x <=2 chunks x 3 control calls exhaustively, 1-3 players x <=3 chunks x 5 calls randomly. "
